@@ -50,7 +50,7 @@ impl Object for Encoding {
                             }
                             Primitive::Name(name) => {
                                 differences.insert(gid, name);
-                                gid += 1;
+                                gid = gid.wrapping_add(1);
                             }
                             _ => bail!("Unknown part primitive in dictionary: {:?}", part),
                         }
